@@ -293,10 +293,14 @@ var allowAll = ast.Policy{Allow: true, Queries: []ast.Rule{{Head: ast.P("query")
 func c11AuthorizerLimits(c *core.C) {
 	// authority-level explosion and block-level explosion, small fact limits
 	f, ru := explosiveProg(12) // 12 + 144 facts
-	for _, where := range []string{"authority", "block"} {
+	for _, where := range []string{"authority", "block", "middle-block"} {
 		blocks := []ast.Block{{Facts: f, Rules: ru}}
 		if where == "block" {
 			blocks = []ast.Block{{Facts: f}, {Rules: ru}}
+		}
+		if where == "middle-block" {
+			// the limit is hit in a block that is NOT the last one: later blocks must not hide it
+			blocks = []ast.Block{{Facts: f}, {Rules: ru}, {Facts: []ast.Pred{ast.P("harmless", ast.Int(1))}}, {}}
 		}
 		tok := c11Token(c, "c11-lim-"+where, blocks)
 		if tok == nil {
@@ -362,7 +366,38 @@ func c11Duration(c *core.C) {
 			c.Violate("stranded-goroutine/after-timeout/"+strandSite(g), "a goroutine started by the timed-out evaluation is blocked forever: "+strandSite(g), map[string]any{"desc": desc, "goroutine": g.text})
 		}
 	}
-	c.Sample(map[string]any{"kind": "duration limit", "program": "done(1) <- p($x), p($y), p($z) over 70 facts", "deadlines": "0, 1ms, 20ms"})
+	// second program: the only answer comes at the very END of the enumeration, so a deadline
+	// that interrupts the rule leaves an EMPTY partial result; that must not look like a fixpoint
+	facts2 := append(factsP(90), ast.P("last", ast.Int(89)))
+	rules2 := []ast.Rule{{Head: ast.P("late", vX), Body: []ast.Pred{ast.P("p", vX), ast.P("p", vY), ast.P("p", vZ), ast.P("last", vX)}}}
+	for _, d := range []time.Duration{time.Millisecond, 5 * time.Millisecond, 25 * time.Millisecond} {
+		c.Eval(1)
+		o := runWorld(facts2, rules2, datalog.WithMaxFacts(1000000000), datalog.WithMaxIterations(1000000000), datalog.WithMaxDuration(d))
+		desc := map[string]any{"program": "late($x) <- p($x), p($y), p($z), last($x) over 90 facts, last(89)", "maxDuration": d.String(), "elapsed": o.Elapsed.String(), "result": sentinelName(o.Err)}
+		if o.Panic != nil {
+			c.Violate("run-panic/"+o.Panic.Site, o.Panic.Msg, desc)
+			continue
+		}
+		if o.Err == nil {
+			found := false
+			for _, k := range o.Facts {
+				if k == "late(89)" {
+					found = true
+				}
+			}
+			if !found {
+				c.Violate("silent-truncation/deadline-before-first-result", fmt.Sprintf("Run returned nil after %v with maxDuration=%v but late(89) is missing: an interrupted rule was taken for a fixpoint", o.Elapsed, d), desc)
+			} else {
+				c.Inconc("the 729000-combination join finished within the deadline")
+			}
+		} else if !errors.Is(o.Err, datalog.ErrWorldRunLimitTimeout) {
+			c.Violate("deadline-not-reported", fmt.Sprintf("returned %s", sentinelName(o.Err)), desc)
+		}
+		c.NT("duration-late/" + d.String() + "/" + sentinelName(o.Err))
+		c.Count("outcome:"+sentinelName(o.Err), 1)
+		quiesce(60 * time.Second)
+	}
+	c.Sample(map[string]any{"kind": "duration limit", "programs": []string{"done(1) <- p($x), p($y), p($z) over 70 facts", "late($x) <- p($x), p($y), p($z), last($x) over 90 facts (answer only at the end)"}, "deadlines": "0, 1ms, 5ms, 20ms, 25ms"})
 }
 
 // (c) options honoured by every entry point ---------------------------------------------------
@@ -454,6 +489,53 @@ func c11EntryPoints(c *core.C) {
 				}
 				c.NT(fmt.Sprintf("entry/%s/%s/%v/%s", e.name, tn, reload, cls))
 			}
+		}
+	}
+	// Query must evaluate (and bound) what was added AFTER a successful Authorize or an earlier Query
+	for _, first := range []string{"Authorize", "Query"} {
+		for _, lim := range []string{"tight", "generous"} {
+			c.Eval(1)
+			tok := toks["ten-facts"]
+			opt := biscuit.WithWorldOptions(datalog.WithMaxIterations(3), datalog.WithMaxFacts(100000), datalog.WithMaxDuration(60*time.Second))
+			if lim == "generous" {
+				opt = big
+			}
+			var qerr error
+			var answers int
+			var cls lib.Class
+			pi := lib.Try(func() {
+				a, err := tok.B.AuthorizerFor(biscuit.WithSingularRootPublicKey(tok.Pub), opt)
+				if err != nil {
+					return
+				}
+				a.AddPolicy(allowAll.Lib())
+				if first == "Authorize" {
+					cls = lib.Classify(a.Authorize())
+				} else {
+					_, _ = a.Query(ast.Rule{Head: ast.P("out", vX), Body: []ast.Pred{ast.P("p", vX)}}.Lib())
+				}
+				fs, rs := ruleChainProg(6)
+				for _, f := range fs {
+					a.AddFact(f.LibFact())
+				}
+				for _, r := range rs {
+					a.AddRule(r.Lib())
+				}
+				res, err := a.Query(ast.Rule{Head: ast.P("reached"), Body: []ast.Pred{ast.P("step6")}}.Lib())
+				qerr, answers = err, len(res)
+			})
+			desc := map[string]any{"first_call": first, "limits": lim, "authorize_class": cls, "query_error": fmt.Sprint(qerr), "answers": answers}
+			if pi != nil {
+				c.Violate("entry-point-panic/"+pi.Site, pi.Msg, desc)
+				continue
+			}
+			if lim == "tight" && !lib.IsLimit(qerr) {
+				c.Violate("query-after-"+first+"-not-bounded", fmt.Sprintf("after %s, a 6-rule chain was added and queried under WithMaxIterations(3): Query returned %v with %d answers instead of the iteration-limit sentinel", first, qerr, answers), desc)
+			}
+			if lim == "generous" && (qerr != nil || answers != 1) {
+				c.Violate("query-after-"+first+"-not-evaluated", fmt.Sprintf("after %s, a 6-rule chain was added: Query(step6) returned %v with %d answers, the least model has exactly one", first, qerr, answers), desc)
+			}
+			c.NT("query-after/" + first + "/" + lim)
 		}
 	}
 	c.Sample(map[string]any{"kind": "entry points", "entries": []string{"NewVerifier", "AuthorizerFor", "AuthorizerFor(key map)", "Authorizer"}, "tokens": []string{"150-round chain in authority", "150-round chain in a later block", "10 facts with WithMaxFacts(3)"}})
